@@ -304,6 +304,41 @@ def memo_actions(keys, with_fft):
     return out
 
 
+def to_json_arg(v):
+    if isinstance(v, tuple):
+        return {"t": [to_json_arg(i) for i in v]}
+    if isinstance(v, list):
+        return [to_json_arg(i) for i in v]
+    if isinstance(v, dict):
+        return {"d": [[to_json_arg(k), to_json_arg(x)] for k, x in v.items()]}
+    if isinstance(v, float):
+        return FL(v)
+    if v is None or isinstance(v, (bool, int, str)):
+        return v
+    raise engine.HarnessError("argument %r cannot be sent to the cold interpreter" % (v,))
+
+
+def broad_queries():
+    """Every public function of the eight theory modules and every method of every scale class, each with the
+    representative (default) arguments of the C15 argument table -- generated from dir(), so a new public function
+    is part of the alphabet automatically."""
+    qs = []
+    for (on, cname), entry in sorted(catalogue().items()):
+        ow = entry["owner"]
+        if ow.kind == "module" and on.startswith("core."):
+            args = []
+            for pname, fac, kind in entry["params"]:
+                if kind != "given":
+                    break                          # reserved trailing parameter: not passed
+                args.append(to_json_arg(fac()[0]))
+            qs.append(Q(on[len("core."):], cname, *args))
+        elif ow.kind == "class" and ow.pool == "scale" and not cname.startswith("__"):
+            cargs = ["C", T(3, 7)] if on == "Diatonic" else ["C"]
+            args = [to_json_arg(fac()[0]) for pname, fac, kind in entry["params"] if kind == "given"]
+            qs.append(M(on, cargs, cname, *args))
+    return qs
+
+
 def _has_mutable(r):
     """does a *rendered* value contain a list or dict?"""
     if isinstance(r, list):
@@ -339,7 +374,7 @@ def fft_inputs(tier):
 
 def all_queries():
     qs = list(battery())
-    qs += memo_actions(KEYS_Q, False) + memo_actions(KEYS_T, True)
+    qs += memo_actions(KEYS_Q, False) + memo_actions(KEYS_T, True) + broad_queries()
     qs += [Q("mingus.extra.fft", "_find_log_index", FL(x)) for x in fft_inputs("thorough")]
     out, seen = [], set()
     for q in qs:
@@ -550,13 +585,14 @@ class MemoSpec(BfsSpec):
     a later call's behaviour can depend on (closures holding state would escape; none exist in these modules and
     a state that is not captured shows up as a non-reproducible replay = harness error, not as a pass)."""
 
-    def __init__(self, keys, with_fft):
+    def __init__(self, keys, with_fft, broad=False):
         self.keys = list(keys)
         self.with_fft = bool(with_fft)
+        self.broad = bool(broad)
         self._acts = None
 
     def params(self):
-        return {"keys": self.keys, "fft": self.with_fft}
+        return {"keys": self.keys, "fft": self.with_fft, "broad": self.broad}
 
     def init(self):
         SPACE.install_cold()
@@ -568,6 +604,9 @@ class MemoSpec(BfsSpec):
             # everything the plain variant checks, so a query whose answer holds a list/dict only gets that variant
             acts = []
             qs = memo_actions(self.keys, self.with_fft)
+            if self.broad:
+                have = set(qkey(q) for q in qs)
+                qs = qs + [q for q in broad_queries() if qkey(q) not in have]
             ensure_cold(qs)
             for q in qs:
                 if not _has_mutable(cold_answer(q)["r"]):
@@ -749,7 +788,7 @@ class FftSpec(BfsSpec):
 
 
 def _memo_runner(case):
-    spec = MemoSpec(case["keys"], case["fft"])
+    spec = MemoSpec(case["keys"], case["fft"], case.get("broad", False))
     ensure_cold(battery() + [a["q"] for a in case["history"]])
     engine.bfs_execute(spec, case["history"], check_prefix=True)
 
@@ -1059,8 +1098,14 @@ def explore(ctx):
         SPACE.install_cold()
         if rkey(SPACE.render_live()) != SPACE.cold_key:
             raise engine.HarnessError("installing the cold snapshot does not reproduce the cold state")
-        ctx.bfs("memo", spec, depth=60, cap=cap)
-        pc = ctx.per_clause.get("memo", {})
+        ctx.bfs("memo", spec, depth=60, cap=cap, label="memo (to the fix-point)")
+        # the same search, depth-bounded, under the *broad* alphabet: every public theory function and scale method
+        broad = MemoSpec(keys, with_fft, broad=True)
+        bdepth = ctx.pick(2, 3)
+        ctx.bound("memo_broad_actions", len(broad.actions()))
+        ctx.bound("memo_broad_depth", bdepth)
+        ctx.bfs("memo", broad, depth=bdepth, cap=cap, label="memo (broad alphabet, depth %d)" % bdepth)
+        pc = ctx.per_clause.get("memo (to the fix-point)", {})
         if not pc.get("fixpoint_reached") and not pc.get("capped") and not pc.get("violating"):
             ctx.exhaustive = False
             ctx.caps_hit.append("memo: depth bound reached before the fix-point")
@@ -1087,10 +1132,14 @@ def explore(ctx):
 
     classes = sorted(set(on for (on, _), e in catalogue().items() if e["owner"].kind == "class"))
     if ctx.want("instances"):
-        maxlen = 2
-        ctx.bound("instance_script_length", maxlen)
+        # scripts of length <= 2 for every class; thorough adds length 3 where the alphabet is small enough
+        shards = []
+        for c in classes:
+            n_ops = len(class_ops(c))
+            shards.append((c, 3 if (ctx.tier == "thorough" and n_ops <= 32) else 2))
+        ctx.bound("instance_script_length", {c: n for c, n in shards})
         ctx.bound("classes", classes)
-        ctx.product("instances", [(c, maxlen) for c in classes], gen_instances)
+        ctx.product("instances", shards, gen_instances)
         if not ctx.only:
             ctx.guard("instances: scripts that changed the operated instance", ctx.counter("scripts_that_changed_the_operated_instance"), 500)
             ctx.guard("instances: operations that returned", ctx.counter("ops_returned"), 2000)
